@@ -226,6 +226,10 @@ def cases(tier, seed):
                         "kind": "opts", "shape": list(s), "mode": m,
                         "sp": sp, "tier": tier, "full_combos": fullc,
                         "_cost": (len(fullc) + 1) * n + 120})
+    # ---- lengths in SI units (added by the lead): metre-scale numbers, so
+    # that nanometre distances are ~1e-9
+    out.append({"id": "si-units", "kind": "siunits", "tier": tier,
+                "_cost": 40})
     # ---- histories (added by the lead): propagations that differ only in
     # one optical / geometric quantity, issued in one interpreter; each must
     # equal the same call in a pristine interpreter (a transfer function
@@ -268,6 +272,53 @@ def _hop(name):
     r = r.transpose(*sorted(r.dims))
     return digest(np.ascontiguousarray(r.values),
                   [list(map(float, r[c].values)) for c in sorted(r.dims)])
+
+
+def _run_siunits(case, ck):
+    import holopy as hp
+    from holopy.core.metadata import data_grid
+    acc = []
+    for shape in ((6, 5), (5, 8)):
+        i, j = np.mgrid[0:shape[0], 0:shape[1]].astype(float)
+        v = np.cos(0.7 * i + 0.2) + 1j * np.sin(0.4 * j * i + 0.1) + 0.05 * j
+        um = data_grid(v, spacing=0.3, medium_index=1.33, illum_wavelen=0.532)
+        si = data_grid(v, spacing=0.3e-6, medium_index=1.33,
+                       illum_wavelen=0.532e-6)
+        for ds in ([2.0, 0.005, -1.0], [0.004, 0.002], [0, 0.005, 1.0],
+                   [-3.0, 0.004, 0.5, 12.0]):
+            dsi = [d * 1e-6 for d in ds]
+            stack = hp.propagate(si, dsi)
+            ck.trans += 1
+            if stack.sizes.get("z") != len(ds):
+                _fail(ck, "list-vs-single", "SI units: asked for %d "
+                      "distances %r, got %d slices (z=%r)" %
+                      (len(ds), dsi, stack.sizes.get("z"),
+                       stack.z.values.tolist()))
+                continue
+            for d_um, d_si in zip(ds, dsi):
+                sl = stack.sel(z=d_si).transpose("x", "y").values
+                one = hp.propagate(si, d_si)
+                one = one.isel(z=0).transpose("x", "y").values \
+                    if "z" in one.dims else one.transpose("x", "y").values
+                ref = hp.propagate(um, d_um)
+                ref = ref.isel(z=0).transpose("x", "y").values \
+                    if "z" in ref.dims else ref.transpose("x", "y").values
+                ck.trans += 2
+                sc = np.abs(v).max()
+                e1 = float(np.abs(sl - one).max() / sc)
+                e2 = float(np.abs(one - ref).max() / sc)
+                ck.metric("si-list-vs-single", e1)
+                ck.metric("si-vs-micrometres", e2)
+                if e1 > 1e-12:
+                    _fail(ck, "list-vs-single", "SI units: slice d=%g of "
+                          "the list %r differs from the single-distance "
+                          "result by %.3g" % (d_si, dsi, e1))
+                if e2 > 1e-9:
+                    _fail(ck, "unit-agnostic", "propagating by %g m (SI "
+                          "image) differs from %g um (micrometre image) by "
+                          "%.3g" % (d_si, d_um, e2))
+                acc.append(np.round(sl.ravel()[:12], 9))
+    return digest(*acc), {}
 
 
 def _run_history(case, ck):
@@ -1022,7 +1073,7 @@ def _run_opts(case, ck):
     return digest(*cx.acc), cx.info
 
 
-_KINDS = {"history": _run_history,
+_KINDS = {"history": _run_history, "siunits": _run_siunits,
           "fftinv": _run_fftinv, "noshift": _run_noshift, "group": _run_group,
           "linear": _run_linear, "list": _run_list, "opts": _run_opts}
 
